@@ -1,3 +1,77 @@
-def main(prop, args):
-    print("selftest not yet implemented")
-    return 0
+"""
+Self-tests of the machinery (not property checks):
+
+  ./check selftest-determinism [--runs N]   every implemented check: N scenarios executed twice in this process, once in a
+                                            fresh interpreter with another PYTHONHASHSEED, and once through the public
+                                            Simulator API (DSIM_PUBLIC_API=1); all event-log digests must agree.
+  ./check selftest-schema                   MANIFEST.json and every evidence file validate against the schemas.
+"""
+import os
+import sys
+import json
+import glob
+import random
+import subprocess
+
+from . import runner
+
+
+def _digests(prop, n, tier="quick", base=0):
+    mod = runner.load_check(prop)
+    out = []
+    for i in range(n):
+        scn = runner.regenerate(mod, prop, tier, base, i)
+        r = runner.execute(mod, scn)
+        if "error" in r:
+            out.append("ERROR:" + r["error"].splitlines()[-1])
+        else:
+            out.append(f"{r['digest']}:{(r['first'] or {}).get('rule')}:{(r['first'] or {}).get('cycle')}")
+    return out
+
+
+def _fresh(prop, n, extra_env):
+    env = dict(os.environ)
+    env.update(extra_env)
+    env["PYTHONPATH"] = f"{runner.VERIF_DIR}:/repo"
+    code = ("import sys,json; sys.dont_write_bytecode=True; from dsim import selftest; "
+            f"print('DIGESTS', json.dumps(selftest._digests({prop!r}, {n})))")
+    p = subprocess.run([sys.executable, "-B", "-c", code], env=env, capture_output=True, text=True, cwd=runner.VERIF_DIR,
+                       timeout=1800)
+    for line in p.stdout.splitlines():
+        if line.startswith("DIGESTS "):
+            return json.loads(line[8:])
+    return ["NO-OUTPUT: " + p.stderr[-300:]]
+
+
+def main(name, args):
+    if name == "selftest-schema":
+        import jsonschema
+        ok = True
+        man = json.load(open(os.path.join(runner.VERIF_DIR, "MANIFEST.json")))
+        jsonschema.validate(man, json.load(open("/root/.vp/MANIFEST.schema.json")))
+        sch = json.load(open("/root/.vp/EVIDENCE.schema.json"))
+        for f in sorted(glob.glob(os.path.join(runner.EVIDENCE_DIR, "*.json"))):
+            try:
+                jsonschema.validate(json.load(open(f)), sch)
+            except Exception as e:
+                ok = False
+                print("INVALID", f, str(e)[:200])
+        print("schema ok" if ok else "schema FAILED")
+        return 0 if ok else 2
+    n = args.runs or 6
+    props = sorted(os.path.basename(f)[:-3].upper() for f in glob.glob(os.path.join(runner.VERIF_DIR, "checks", "c[0-9]*.py")))
+    if getattr(args, "wall", None):
+        pass
+    bad = 0
+    for prop in props:
+        a = _digests(prop, n)
+        b = _digests(prop, n)
+        c = _fresh(prop, n, {"PYTHONHASHSEED": "4242"})
+        d = _fresh(prop, min(n, 3), {"PYTHONHASHSEED": "7", "DSIM_PUBLIC_API": "1"})
+        ok = a == b == c and a[:len(d)] == d and not any(x.startswith(("ERROR", "NO-OUTPUT")) for x in a + c + d)
+        print(f"[selftest-determinism] {prop}: {'ok' if ok else 'MISMATCH'} ({n} scenarios x same-process twice, "
+              f"fresh interpreter PYTHONHASHSEED=4242, public-API back end x{len(d)})")
+        if not ok:
+            bad += 1
+            print("   a", a, "\n   b", b, "\n   c", c, "\n   d", d)
+    return 0 if not bad else 2
